@@ -310,7 +310,7 @@ func (c *Check) ruleLoopVisitsAll(rule, fnKey string, match func(ssa.Value) bool
 					continue
 				}
 				// leaving the loop from inside the body
-				if isErrorReturnBlock(s) || onlyReachesErrorReturns(s, body) {
+				if isErrorReturnBlock(s) || onlyReachesErrorReturns(s, body) || leavesOnlyThroughErrors(b, s, body) {
 					continue
 				}
 				ok = false
@@ -320,6 +320,33 @@ func (c *Check) ruleLoopVisitsAll(rule, fnKey string, match func(ssa.Value) bool
 		c.Decide(ok, rule, fmt.Sprintf("%s#visits-every-%s@%d", fnKey, what, i+1), lastPos(h), "cfg-structure", wit,
 			"the loop leaves early only through error returns", consequence)
 	}
+}
+
+// leavesOnlyThroughErrors: leaving the loop over the edge from -> s, every feasible way on (edge-threaded:
+// a result flag set just before the exit is followed) ends in an error return without coming back
+// into the loop.
+func leavesOnlyThroughErrors(from, s *ssa.BasicBlock, body map[*ssa.BasicBlock]bool) bool {
+	ok := true
+	steps := 0
+	explore([]walkNode{mkNode(from, s)}, func(n walkNode) bool {
+		steps++
+		if steps > 400 {
+			ok = false
+			return false
+		}
+		if body[n.b] {
+			ok = false
+			return false
+		}
+		if isExitBlock(n.b) {
+			if !isErrorReturnBlock(n.b) {
+				ok = false
+			}
+			return false
+		}
+		return ok
+	})
+	return ok
 }
 
 // onlyReachesErrorReturns: every exit reachable from b (without re-entering the loop) is an error return.
